@@ -119,22 +119,65 @@ pub fn set_gate(armed: bool) {
     CV.notify_all();
 }
 
+/// Are all flush-worker threads of this process asleep (blocked in recv, or parked at the
+/// gate)? Read from /proc: a worker that is still running towards its next system call is
+/// in state R (or D), so "asleep and not at the gate" means idle — no timing guess needed.
+pub fn worker_sleeping() -> bool {
+    let rd = match std::fs::read_dir("/proc/self/task") {
+        Ok(r) => r,
+        Err(_) => return true,
+    };
+    for e in rd.flatten() {
+        let p = e.path();
+        let comm = std::fs::read_to_string(p.join("comm")).unwrap_or_default();
+        if !comm.starts_with("raft_log_wal_fl") {
+            continue;
+        }
+        let stat = std::fs::read_to_string(p.join("stat")).unwrap_or_default();
+        // pid (comm) S ...
+        if let Some(i) = stat.rfind(')') {
+            let st = stat[i + 1..].trim_start().chars().next().unwrap_or('S');
+            if st != 'S' {
+                return false;
+            }
+        }
+    }
+    true
+}
+
+/// Wait until the worker is parked at the gate (true) or idle (false).
+fn wait_parked_or_idle(mut g: std::sync::MutexGuard<'static, Option<Ctl>>, cap_ms: u64) -> (std::sync::MutexGuard<'static, Option<Ctl>>, bool) {
+    let hard = Instant::now() + Duration::from_millis(cap_ms);
+    let mut asleep = 0;
+    loop {
+        if g.as_ref().map(|c| c.at_gate).unwrap_or(true) {
+            return (g, true);
+        }
+        drop(g);
+        if worker_sleeping() {
+            asleep += 1;
+        } else {
+            asleep = 0;
+        }
+        g = CTL.lock().unwrap();
+        if g.as_ref().map(|c| c.at_gate).unwrap_or(true) {
+            return (g, true);
+        }
+        if asleep >= 3 || Instant::now() > hard {
+            return (g, false);
+        }
+        let (gg, _) = CV.wait_timeout(g, Duration::from_micros(700)).unwrap();
+        g = gg;
+    }
+}
+
 /// Let the worker perform one visible event. Returns false when the worker does not
 /// show up at the gate within `idle_ms` (it is idle).
-pub fn worker_step(idle_ms: u64) -> bool {
-    let mut g = CTL.lock().unwrap();
-    let deadline = Instant::now() + Duration::from_millis(idle_ms);
-    loop {
-        let c = g.as_mut().unwrap();
-        if c.at_gate {
-            break;
-        }
-        let now = Instant::now();
-        if now >= deadline {
-            return false;
-        }
-        let (gg, _) = CV.wait_timeout(g, deadline - now).unwrap();
-        g = gg;
+pub fn worker_step(_idle_ms: u64) -> bool {
+    let g = CTL.lock().unwrap();
+    let (mut g, parked) = wait_parked_or_idle(g, 20000);
+    if !parked {
+        return false;
     }
     let n = g.as_ref().unwrap().events_done;
     g.as_mut().unwrap().permits += 1;
@@ -149,30 +192,14 @@ pub fn worker_step(idle_ms: u64) -> bool {
         }
     }
     // ... and for the worker to reach its next gate (or go idle)
-    let deadline = Instant::now() + Duration::from_millis(idle_ms);
-    while !g.as_ref().unwrap().at_gate {
-        let now = Instant::now();
-        if now >= deadline {
-            break;
-        }
-        let (gg, _) = CV.wait_timeout(g, deadline - now).unwrap();
-        g = gg;
-    }
+    let _ = wait_parked_or_idle(g, 20000);
     true
 }
 
-/// Wait until the worker is parked at the gate or has been quiet for `idle_ms`.
-pub fn settle(idle_ms: u64) {
-    let mut g = CTL.lock().unwrap();
-    let deadline = Instant::now() + Duration::from_millis(idle_ms);
-    while !g.as_ref().map(|c| c.at_gate).unwrap_or(true) {
-        let now = Instant::now();
-        if now >= deadline {
-            break;
-        }
-        let (gg, _) = CV.wait_timeout(g, deadline - now).unwrap();
-        g = gg;
-    }
+/// Wait until the worker is parked at the gate or idle.
+pub fn settle(_idle_ms: u64) {
+    let g = CTL.lock().unwrap();
+    let _ = wait_parked_or_idle(g, 20000);
 }
 
 /// Called by a gated event of the worker thread before it acts. Returns Some(fail?)
@@ -468,6 +495,8 @@ pub unsafe extern "C" fn flock(fd: c_int, op: c_int) -> c_int {
                     lock_log(&format!("{} flock unlocked", role()));
                     res
                 } else {
+                    // an attempt is an interval too: a failure is decided somewhere between these two lines
+                    lock_log(&format!("{} flock trying", role()));
                     let res = raw();
                     event_done(format!("{} flock lock {}", role(), if res == 0 { "ok" } else { "fail" }), false);
                     res
